@@ -112,8 +112,65 @@ def schedule_part(ctx):
             nr = nr // ctx.nshards + (1 if ctx.shard < nr % ctx.nshards else 0)
             S.explore_random(make, tg, nr, ctx.rng, on_run)
             ctx.count('random_schedules', nr)
+    if ctx.shard == 0:
+        registrar_part(ctx, tg)
     generated_thread_programs(ctx, tg)
     ctx.sample({'thread_programs': [(n, describe(p)['body'], [fr.faults_json(f) for f in fs]) for n, p, fs in thread_programs()][:2]})
+
+
+def registrar_part(ctx, tg):
+    """While the service is serving operations, another thread registers recording parameters for classes of a lazily imported module
+    (`@recorder.recording_params(...)` runs at import time). The operation's own class has no parameters; others already have."""
+    from checks.C04 import compare_with_twin
+    from playback.tape_recorder import RecordingParameters
+    name, prog, _ = thread_programs()[0]
+    twin = Built(prog, None, World(prog['seed_world'], raise_rate=0.0), faults={})
+    twin_outcome = twin.run('live')
+    holder = {}
+
+    def make(sched):
+        from playback.tape_recorder import TapeRecorder
+        from playback.tape_cassettes.in_memory.in_memory_tape_cassette import InMemoryTapeCassette
+        spy = SpyCassette(InMemoryTapeCassette())
+        rec = TapeRecorder(spy)
+        rec.enable_recording()
+        for i in range(2):
+            rec.recording_params(RecordingParameters())(type('AlreadyConfigured%d' % i, (object,), {}))
+        b = Built(prog, rec, World(prog['seed_world'], raise_rate=0.0), faults={},
+                  thread_factory=lambda target, args, name: sched.Thread(target=target, args=args, name=name))
+        holder.update(built=b, spy=spy)
+
+        def registrar():
+            for i in range(2):
+                rec.recording_params(RecordingParameters(sampling_rate=1))(type('LazilyImported%d' % i, (object,), {}))
+
+        def main():
+            t = sched.Thread(target=registrar, name='registrar')
+            t.start()
+            try:
+                return b.run('live')
+            finally:
+                t.join()
+        return main
+
+    def on_run(rec, prefix):
+        w = {'program': name + '+registrar', 'faults': [], 'schedule': list(prefix) if not isinstance(prefix, tuple) else prefix, 'registrar': True}
+        ctx.case(rec.trace, nontrivial=len(rec.points) > 0)
+        ctx.count('schedules_executed')
+        ctx.count('schedules_with_a_registering_thread')
+        if rec.aborted:
+            if 'deadlock' in rec.aborted:
+                ctx.violation('operation deadlocked under a schedule: ' + rec.aborted[:100], w)
+            return
+        if rec.error is not None:
+            ctx.violation('harness-level error %s' % type(rec.error).__name__, dict(w, error=repr(rec.error)[:200]))
+            return
+        r = _Res()
+        r.live, r.twin, r.outcome, r.twin_outcome = holder['built'], twin, rec.result, twin_outcome
+        ctx.count('calls_compared', compare_with_twin(ctx, r, w))
+    S.explore_dfs(make, tg, 1, on_run, max_runs=150 if ctx.quick else 20000)
+    S.explore_random(make, tg, 30 if ctx.quick else 1500, ctx.rng, on_run)
+    return make, on_run
 
 
 def gen_threaded(seed):
@@ -195,6 +252,8 @@ def generated_thread_programs(ctx, tg):
 
 def replay(ctx, w):
     from checks.C04 import compare_with_twin
+    if w.get('registrar'):
+        return registrar_part(ctx, targets())       # the exploration is deterministic: run it again
     if 'generated' in w:
         seed = w['generated'] // 1000
         prog, faults = gen_threaded(seed)
